@@ -1066,6 +1066,10 @@ class Interp:
         pos = []
         for a in e.args:
             if isinstance(a, ast.Starred):
+                sv = self.eval(a.value, env)
+                if isinstance(sv, TupleV) or (isinstance(sv, ListV) and not getattr(sv, "unknown", False)):
+                    pos.extend(sv.items)  # f(*record): the items of a tuple / record whose items are known
+                    continue
                 raise AnalysisError("star-args call %s in %s" % (norm(e), self.cur))
             pos.append(self.eval(a, env))
         kw = {}
